@@ -89,7 +89,16 @@ def run(pid, tier, replay=None):
     else:
         pool = None
         it = map(_worker, [(modname, u) for u in units])
+    known_early = _findings.load(pid)
+    failfast_s = float(os.environ.get('VERIF_FAILFAST_S', '240'))
+    stopped_early = False
     for res in it:
+        # fail fast: once a failure that no known finding explains has been seen and the run is already long (a broken
+        # implementation can also be pathologically slow), stop exploring and report what was found
+        if failfast_s > 0 and time.time() - t0 > failfast_s and any(
+                _findings.match(known_early, sg, fl[0].get('attribs', ())) is None for sg, fl in agg['fails'].items()):
+            stopped_early = True
+            break
         if 'error' in res:
             agg['errors'].append((res.get('unit'), res['error']))
             continue
@@ -117,7 +126,10 @@ def run(pid, tier, replay=None):
             agg['nfails'] += 1
             agg['fails'].setdefault(f['sig'], []).append(f)
     if pool is not None:
-        pool.close()
+        if stopped_early:
+            pool.terminate()
+        else:
+            pool.close()
         pool.join()
 
     if agg['errors']:
@@ -170,7 +182,8 @@ def run(pid, tier, replay=None):
         'distinct_nontrivial': len(agg['keys']) + agg['nontrivial'],
         'rule': mod.RULE,
         'samples': agg['samples'][:MAX_SAMPLES] or [{'note': 'no sample recorded'}],
-        'exhaustive': True,
+        'exhaustive': not stopped_early,
+        'stopped_early_after_violation': stopped_early,
         'units': len(units),
         'failing_cases': agg['nfails'],
         'known_finding_signatures_hit': sorted(known_hit),
